@@ -14,8 +14,8 @@ pub struct Path {
 
 impl Path {
     /// Creates the default Ethereum HD path for the specified account index.
-    pub fn for_index(index: usize) -> Self {
-        format!("m/44'/60'/0'/0/{index}").parse().unwrap()
+    pub fn for_index(index: usize) -> Result<Self> {
+        format!("m/44'/60'/0'/0/{index}").parse()
     }
 
     /// Returns an iterator over the path components.
